@@ -1384,6 +1384,17 @@ fn token_intermediate(input: &[u8], inside_include: bool) -> LexResult<'_, Token
             // Word token
             any_word(input)
         }
+        Some(b'.') if matches!(input.get(1), Some(b'0'..=b'9')) => {
+            // Float literal without a whole part such as .5
+            match literal_float(input) {
+                Ok(ok) => Ok(ok),
+                Err(LexErrorContext(rest, LexerErrorReason::OtherTokenBytes)) => {
+                    debug_assert_eq!(input.len(), rest.len());
+                    Ok((&input[1..], Token::Period))
+                }
+                err => err,
+            }
+        }
         Some(_) => {
             // Other token
             if inside_include {
